@@ -67,6 +67,12 @@ def configs(tier):
         for long_only, w, shapes in ((True, ('0.6', '0.4'), ('rising', 'falling')), (False, ('1', '-0.7'), ('zigzag', 'gapdown'))):
             out.append({'long_only': long_only, 'weights': list(w), 'shapes': list(shapes), 'tier': tier, 'times': times,
                         'lengths': lengths, 'params': params[long_only], 'fees': fees[-1:], 'cashes': cashes[:1], 'overlap': k})
+    # markets with exchange holidays (business days without a bar in any asset)
+    for hol in ([6], [8, 9]) if tier == 'quick' else ([4], [6], [8, 9], [5, 10]):
+        for long_only, w, shapes in ((True, ('0.5', '0.3', '0.2'), ('rising', 'falling', 'zigzag')),
+                                     (False, ('1', '-0.7'), ('zigzag', 'gapdown'))):
+            out.append({'long_only': long_only, 'weights': list(w), 'shapes': list(shapes), 'tier': tier, 'times': times,
+                        'lengths': lengths, 'params': params[long_only], 'fees': fees[-1:], 'cashes': cashes[:1], 'holidays': hol})
     return out
 
 
@@ -119,7 +125,13 @@ def session_cfgs(item):
     yield cfg
 
 
-def market_from(shapes, n, overlap=None):
+def market_from(shapes, n, overlap=None, holidays=None):
+    if holidays:
+        # business days on which the exchange was closed: no asset has a bar; the price on such a day is the last one
+        # seen (the previous close), orders queued before it fill at the next real open
+        m = market_from(shapes, n, overlap)
+        gone = set(MARKET_DAYS[i] for i in holidays)
+        return {sym: [r for r in rows if r[0] not in gone] for sym, rows in m.items()}
     spec = {s: (shape, BASES[s]) for s, shape in zip(sl.SYMS[:n], shapes)}
     if overlap:
         # the first symbol is held by TWO data sources: the first-listed one starts `overlap` days late (a young
@@ -131,7 +143,7 @@ def market_from(shapes, n, overlap=None):
 
 
 def market_of(item):
-    return market_from(item['shapes'], len(item['weights']), item.get('overlap'))
+    return market_from(item['shapes'], len(item['weights']), item.get('overlap'), item.get('holidays'))
 
 
 def compare(cfg, market, handler):
@@ -255,7 +267,7 @@ def per_market(item):
                 nontriv += 1
                 outs.add((cfg['rebalance'], cfg['weekday'], cfg['start'][:10], nf))
             for f in fails:
-                f['case'] = {'cfg': cfg, 'shapes': item['shapes'], 'overlap': item.get('overlap')}
+                f['case'] = {'cfg': cfg, 'shapes': item['shapes'], 'overlap': item.get('overlap'), 'holidays': item.get('holidays')}
                 viols.append(f)
             if len(viols) > 8:
                 break
@@ -295,7 +307,7 @@ def replay(case):
     try:
         cfg = case['cfg']
         n = len(cfg['assets'])
-        market = market_from(case['shapes'], n, case.get('overlap'))
+        market = market_from(case['shapes'], n, case.get('overlap'), case.get('holidays'))
         sl.write_market(d, market)
         handler, _ = sl.load_handler(d, market)
         fails, _, _ = compare(cfg, market, handler)
